@@ -113,14 +113,11 @@ func (v *objectValidator) feedObjectValueBegin() ([]validator, bool) {
 	}
 
 	// child node not found on schema object
-	if c := v.node_.Constraint(constraint.RequiredKeysConstraintType); c != nil {
-		key, ok := v.validateTypeRules(v.lastFoundKeyLex.Value())
+	if key, ok := v.validateTypeRules(objectNode, v.lastFoundKeyLex.Value()); ok {
+		child, ok := objectNode.ChildByRawKey([]byte(key))
 		if ok {
-			child, ok := objectNode.ChildByRawKey([]byte(key))
-			if ok {
-				delete(v.requiredKeys, key)
-				return NodeValidatorList(child, v.rootSchema, v), false
-			}
+			delete(v.requiredKeys, key)
+			return NodeValidatorList(child, v.rootSchema, v), false
 		}
 	}
 	if c := v.node_.Constraint(constraint.AdditionalPropertiesConstraintType); c != nil {
@@ -142,8 +139,14 @@ func (v objectValidator) requiredKeysString() string {
 }
 
 // validate with rules
-func (v objectValidator) validateTypeRules(value jbytes.Bytes) (string, bool) {
-	for key := range v.requiredKeys {
+func (v objectValidator) validateTypeRules(objectNode *schema.ObjectNode, value jbytes.Bytes) (string, bool) {
+	// Every key shortcut of the object is tried, in schema order, whether or
+	// not it is required and whether or not it has matched a key before.
+	for _, k := range objectNode.Keys().Data {
+		if !k.IsShortcut {
+			continue
+		}
+		key := k.Key
 		typ, ok := v.rootSchema.TypesList()[key]
 		if !ok {
 			continue
